@@ -1,5 +1,5 @@
 (* C04 — proofs about the model (Model.v) and the specification (Spec.v). *)
-From Coq Require Import ZArith QArith Qround Qabs Bool List Lia Lra Setoid.
+From Coq Require Import ZArith QArith Qround Qabs Bool List Lia Lqa Setoid.
 Require Import QV.C04.Model QV.C04.Spec.
 Import ListNotations.
 
@@ -41,3 +41,854 @@ Qed.
 
 Lemma sum_pieces_is_duration : forall l, sum_pieces 1 l == loop_duration l.
 Proof. intros; rewrite sum_pieces_scale. ring. Qed.
+
+(* ------------------------------------------------------------------------------------------------------------ *)
+(* Python range: closed form *)
+Close Scope Q_scope.
+Open Scope Z_scope.
+Ltac Zify.zify_post_hook ::= Z.to_euclidean_division_equations.
+
+Definition range_n (a b s : Z) : Z :=
+  Z.max 0 (if 0 <? s then (b - a + s - 1) / s else (a - b - s - 1) / (- s)).
+
+Definition arith_list (a s : Z) (n : nat) : list Z := map (fun k => a + Z.of_nat k * s) (seq 0 n).
+
+Lemma arith_list_S a s n : arith_list a s (S n) = a :: arith_list (a + s) s n.
+Proof.
+  unfold arith_list. cbn [seq map]. f_equal; [lia|].
+  rewrite <- seq_shift, map_map. apply map_ext. intros k. lia.
+Qed.
+
+Lemma range_fuel_pos s b : 0 < s -> forall fuel x, b - x <= Z.of_nat fuel ->
+  range_fuel fuel x b s = arith_list x s (Z.to_nat (Z.max 0 ((b - x + s - 1) / s))).
+Proof.
+  intros Hs. induction fuel as [|f IH]; intros x Hx.
+  - cbn. replace (Z.max 0 ((b - x + s - 1) / s)) with 0 by (assert ((b - x + s - 1) / s <= 0) by nia; lia). reflexivity.
+  - cbn [range_fuel]. destruct (0 <? s) eqn:E; [|lia].
+    destruct (x <? b) eqn:Exb.
+    + rewrite IH by lia.
+      assert (Hq : (b - x + s - 1) / s = (b - (x + s) + s - 1) / s + 1).
+      { replace (b - x + s - 1) with ((b - (x + s) + s - 1) + 1 * s) by ring. rewrite Z.div_add by lia. ring. }
+      assert (0 <= (b - (x + s) + s - 1) / s) by (apply Z.div_pos; lia).
+      rewrite Hq. replace (Z.to_nat (Z.max 0 ((b - (x + s) + s - 1) / s + 1)))
+        with (S (Z.to_nat (Z.max 0 ((b - (x + s) + s - 1) / s)))) by lia.
+      rewrite arith_list_S. reflexivity.
+    + replace (Z.max 0 ((b - x + s - 1) / s)) with 0 by (assert ((b - x + s - 1) / s <= 0) by nia; lia). reflexivity.
+Qed.
+
+Lemma range_fuel_neg s b : s < 0 -> forall fuel x, x - b <= Z.of_nat fuel ->
+  range_fuel fuel x b s = arith_list x s (Z.to_nat (Z.max 0 ((x - b - s - 1) / (- s)))).
+Proof.
+  intros Hs. induction fuel as [|f IH]; intros x Hx.
+  - cbn. replace (Z.max 0 ((x - b - s - 1) / (- s))) with 0 by (assert ((x - b - s - 1) / (- s) <= 0) by nia; lia). reflexivity.
+  - cbn [range_fuel]. destruct (0 <? s) eqn:E; [lia|].
+    destruct (b <? x) eqn:Exb.
+    + rewrite IH by lia.
+      assert (Hq : (x - b - s - 1) / (- s) = ((x + s) - b - s - 1) / (- s) + 1).
+      { replace (x - b - s - 1) with (((x + s) - b - s - 1) + 1 * (- s)) by ring. rewrite Z.div_add by lia. ring. }
+      assert (0 <= ((x + s) - b - s - 1) / (- s)) by (apply Z.div_pos; lia).
+      rewrite Hq. replace (Z.to_nat (Z.max 0 ((x + s - b - s - 1) / (- s) + 1)))
+        with (S (Z.to_nat (Z.max 0 ((x + s - b - s - 1) / (- s))))) by lia.
+      rewrite arith_list_S. reflexivity.
+    + replace (Z.max 0 ((x - b - s - 1) / (- s))) with 0 by (assert ((x - b - s - 1) / (- s) <= 0) by nia; lia). reflexivity.
+Qed.
+
+Lemma zrange_closed a b s : s <> 0 -> zrange a b s = arith_list a s (Z.to_nat (range_n a b s)).
+Proof.
+  intros Hs. unfold zrange, range_n. destruct (0 <? s) eqn:E.
+  - apply range_fuel_pos; lia.
+  - apply range_fuel_neg; lia.
+Qed.
+
+(* the integer ceiling of a quotient of integers *)
+Lemma Qceiling_unique (q : Q) (z : Z) : (inject_Z (z - 1) < q)%Q -> (q <= inject_Z z)%Q -> Qceiling q = z.
+Proof.
+  intros H1 H2.
+  pose proof (Qle_ceiling q) as H3. pose proof (Qceiling_lt q) as H4.
+  assert (z - 1 < Qceiling q) by (rewrite Zlt_Qlt; eapply Qlt_le_trans; eauto).
+  assert (Qceiling q - 1 < z) by (rewrite Zlt_Qlt; eapply Qlt_le_trans; eauto).
+  lia.
+Qed.
+
+Lemma Qceiling_div_pos (m s : Z) : 0 < s -> Qceiling (inject_Z m / inject_Z s) = (m + s - 1) / s.
+Proof.
+  intros Hs. apply Qceiling_unique.
+  - apply Qlt_shift_div_l; [rewrite <- (Zlt_Qlt 0); exact Hs|].
+    rewrite <- inject_Z_mult, <- Zlt_Qlt. nia.
+  - apply Qle_shift_div_r; [rewrite <- (Zlt_Qlt 0); exact Hs|].
+    rewrite <- inject_Z_mult, <- Zle_Qle. nia.
+Qed.
+
+Lemma range_n_ceiling a b s : s <> 0 ->
+  range_n a b s = Z.max 0 (Qceiling ((inject_Z b - inject_Z a) / inject_Z s)).
+Proof.
+  intros Hs. unfold range_n. f_equal. destruct (0 <? s) eqn:E.
+  - rewrite <- Qceiling_div_pos by lia. apply Qceiling_comp.
+    unfold Zminus. rewrite inject_Z_plus, inject_Z_opp. reflexivity.
+  - replace (a - b - s - 1) with ((a - b) + (- s) - 1) by ring.
+    rewrite <- Qceiling_div_pos by lia. apply Qceiling_comp.
+    assert (~ inject_Z s == 0)%Q by (intros H; apply Hs; apply (proj1 (inject_Z_injective s 0)); exact H).
+    unfold Zminus. rewrite inject_Z_plus, !inject_Z_opp. field. auto.
+Qed.
+
+Lemma arith_list_length a s n : length (arith_list a s n) = n.
+Proof. unfold arith_list. rewrite map_length, seq_length. reflexivity. Qed.
+
+Lemma zrange_length a b s : s <> 0 ->
+  Z.of_nat (length (zrange a b s)) = Z.max 0 (Qceiling ((inject_Z b - inject_Z a) / inject_Z s)).
+Proof.
+  intros Hs. rewrite zrange_closed, arith_list_length, <- range_n_ceiling by assumption.
+  unfold range_n. lia.
+Qed.
+
+Lemma zrange_nth a b s k : s <> 0 -> (k < length (zrange a b s))%nat -> nth k (zrange a b s) 0 = a + Z.of_nat k * s.
+Proof.
+  intros Hs Hk. rewrite zrange_closed in * by assumption. rewrite arith_list_length in Hk.
+  unfold arith_list.
+  rewrite (nth_indep _ 0 ((fun k => a + Z.of_nat k * s) O)) by (rewrite map_length, seq_length; exact Hk).
+  rewrite (map_nth (fun k => a + Z.of_nat k * s) (seq 0 _) O k), seq_nth by exact Hk. reflexivity.
+Qed.
+
+(* ------------------------------------------------------------------------------------------------------------ *)
+(* to_waveform(program).duration = Loop.duration on the trees create_program builds *)
+Open Scope Q_scope.
+
+Fixpoint wfl (l : loop) : Prop :=
+  match l with
+  | Leaf r d => (1 <= r)%Z
+  | Node r kids => (1 <= r)%Z /\ kids <> [] /\ (fix all (ks : list loop) : Prop :=
+                                                 match ks with [] => True | k :: t => wfl k /\ all t end) kids
+  end.
+
+Lemma wfl_all (kids : list loop) :
+  (fix all (ks : list loop) : Prop := match ks with [] => True | k :: t => wfl k /\ all t end) kids <-> Forall wfl kids.
+Proof.
+  induction kids as [|k t IH]; split; intros H.
+  - constructor.
+  - exact I.
+  - destruct H as [H1 H2]. constructor; [exact H1 | apply IH; exact H2].
+  - inversion H; subst. split; [assumption | apply IH; assumption].
+Qed.
+
+Lemma wfl_node r kids : wfl (Node r kids) <-> (1 <= r)%Z /\ kids <> [] /\ Forall wfl kids.
+Proof. cbn [wfl]. rewrite wfl_all. reflexivity. Qed.
+
+Lemma oqsum_some (kids : list loop) :
+  Forall (fun k => exists q, wf_duration k = Some q /\ q == loop_duration k) kids ->
+  exists s, oqsum (map wf_duration kids) = Some s /\ s == qsum (map loop_duration kids).
+Proof.
+  induction 1 as [|k t (q & Hq & Hqe) _ (s & Hs & Hse)]; cbn.
+  - exists 0; split; [reflexivity | reflexivity].
+  - rewrite Hq, Hs. exists (q + s). split; [reflexivity | rewrite Hqe, Hse; reflexivity].
+Qed.
+
+Lemma wf_duration_is_loop_duration : forall l, wfl l -> exists q, wf_duration l = Some q /\ q == loop_duration l.
+Proof.
+  induction l using loop_ind'; intros Hw.
+  - cbn in *. destruct (r =? 1)%Z eqn:E.
+    + apply Z.eqb_eq in E; subst. eexists; split; [reflexivity|]. ring.
+    + eexists; split; [reflexivity|]. reflexivity.
+  - apply wfl_node in Hw as (Hr & Hne & Hall).
+    assert (Hk : Forall (fun k => exists q, wf_duration k = Some q /\ q == loop_duration k) kids).
+    { rewrite Forall_forall in *. intros k Hin. apply H; auto. }
+    destruct (oqsum_some kids Hk) as (s & Hs & Hse).
+    cbn [wf_duration loop_duration]. destruct kids as [|k0 t]; [congruence|].
+    rewrite Hs. destruct (1 <? r)%Z eqn:E.
+    + eexists; split; [reflexivity|]. rewrite Hse. reflexivity.
+    + assert (r = 1%Z) by lia. subst. eexists; split; [reflexivity|]. rewrite Hse. ring.
+Qed.
+
+(* n repetitions of a leaf last exactly n times the leaf: an identity of Q, no accumulation for any n *)
+Lemma rep_leaf_exact (n : Z) (d : Q) : total (wrap_node n [Leaf 1 d]) == inject_Z n * d.
+Proof. cbn. ring. Qed.
+
+(* ------------------------------------------------------------------------------------------------------------ *)
+(* induction principle for templates *)
+Section PtInd.
+  Variable P : pt -> Prop.
+  Hypothesis HAtom : forall k r d, P (PAtom k r d).
+  Hypothesis HTable : forall r chans, P (PTable r chans).
+  Hypothesis HSeq : forall subs, Forall P subs -> P (PSeq subs).
+  Hypothesis HRep : forall c b, P b -> P (PRep c b).
+  Hypothesis HFor : forall i a b s body, P body -> P (PFor i a b s body).
+  Hypothesis HMap : forall m b, P b -> P (PMap m b).
+  Hypothesis HMulti : forall d subs, Forall P subs -> P (PMulti d subs).
+  Hypothesis HArith : forall l r, P l -> P r -> P (PArith l r).
+  Hypothesis HWrap : forall b, P b -> P (PWrap b).
+  Hypothesis HRev : forall b, P b -> P (PRev b).
+  Fixpoint pt_ind' (p : pt) : P p :=
+    let go := fix go (l : list pt) : Forall P l :=
+      match l with [] => Forall_nil _ | c :: t => Forall_cons _ (pt_ind' c) (go t) end in
+    match p with
+    | PAtom k r d => HAtom k r d
+    | PTable r chans => HTable r chans
+    | PSeq subs => HSeq subs (go subs)
+    | PRep c b => HRep c b (pt_ind' b)
+    | PFor i a b s body => HFor i a b s body (pt_ind' body)
+    | PMap m b => HMap m b (pt_ind' b)
+    | PMulti d subs => HMulti d subs (go subs)
+    | PArith l r => HArith l r (pt_ind' l) (pt_ind' r)
+    | PWrap b => HWrap b (pt_ind' b)
+    | PRev b => HRev b (pt_ind' b)
+    end.
+End PtInd.
+
+(* ------------------------------------------------------------------------------------------------------------ *)
+(* generic list lemmas for the two monads *)
+Lemma rbind_ok {A B} (r : res A) (f : A -> res B) b : rbind r f = Ok b -> exists a, r = Ok a /\ f a = Ok b.
+Proof. destruct r; cbn; intros H; try discriminate. eauto. Qed.
+
+Lemma obind_some {A B} (o : option A) (f : A -> option B) b : obind o f = Some b -> exists a, o = Some a /\ f a = Some b.
+Proof. destruct o; cbn; intros H; try discriminate. eauto. Qed.
+
+Ltac inv_ok :=
+  repeat match goal with
+         | H : rbind _ _ = Ok _ |- _ => apply rbind_ok in H; destruct H as (? & ? & H)
+         | H : obind _ _ = Some _ |- _ => apply obind_some in H; destruct H as (? & ? & H)
+         | H : Ok _ = Ok _ |- _ => inversion H; subst; clear H
+         | H : Some _ = Some _ |- _ => inversion H; subst; clear H
+         end.
+
+Lemma rall_map_inv {A B} (f : A -> res B) l ks : rall (map f l) = Ok ks -> Forall2 (fun c k => f c = Ok k) l ks.
+Proof.
+  revert ks; induction l as [|c t IH]; cbn; intros ks H.
+  - inversion H; constructor.
+  - inv_ok. constructor; auto.
+Qed.
+
+Lemma oall_map_inv {A B} (g : A -> option B) l ds : oall (map g l) = Some ds -> Forall2 (fun c d => g c = Some d) l ds.
+Proof.
+  revert ds; induction l as [|c t IH]; cbn; intros ds H.
+  - inversion H; constructor.
+  - inv_ok. constructor; auto.
+Qed.
+
+(* ------------------------------------------------------------------------------------------------------------ *)
+(* expressions: the typed evaluation agrees with the rational evaluation *)
+Lemma Qleb_comp a a' b b' : a == a' -> b == b' -> Qleb a b = Qleb a' b'.
+Proof.
+  intros Ha Hb. unfold Qleb. destruct (Qle_bool a b) eqn:E1, (Qle_bool a' b') eqn:E2; auto.
+  - apply Qle_bool_iff in E1. rewrite Ha, Hb in E1. apply Qle_bool_iff in E1. congruence.
+  - apply Qle_bool_iff in E2. rewrite <- Ha, <- Hb in E2. apply Qle_bool_iff in E2. congruence.
+Qed.
+
+Lemma Qeqb_comp a a' b b' : a == a' -> b == b' -> Qeqb a b = Qeqb a' b'.
+Proof.
+  intros Ha Hb. unfold Qeqb. destruct (Qeq_bool a b) eqn:E1, (Qeq_bool a' b') eqn:E2; auto.
+  - apply Qeq_bool_iff in E1. rewrite Ha, Hb in E1. apply Qeq_bool_iff in E1. congruence.
+  - apply Qeq_bool_iff in E2. rewrite <- Ha, <- Hb in E2. apply Qeq_bool_iff in E2. congruence.
+Qed.
+
+Lemma Qmaxq_comp a a' b b' : a == a' -> b == b' -> Qmaxq a b == Qmaxq a' b'.
+Proof. intros Ha Hb. unfold Qmaxq. rewrite (Qleb_comp a a' b b' Ha Hb). destruct (Qleb a' b'); assumption. Qed.
+
+Lemma lookup_qenv e y : lookup (qenv_of e) y = option_map (fun v => Qred (time_of v)) (lookup e y).
+Proof.
+  induction e as [|[x v] t IH]; cbn; [reflexivity|]. destruct (N.eqb y x); [reflexivity | exact IH].
+Qed.
+
+Lemma arith_time f fz a b v :
+  (forall x y, inject_Z (fz x y) == f (inject_Z x) (inject_Z y)) ->
+  arith f fz a b = Ok v -> time_of v == f (time_of a) (time_of b).
+Proof.
+  intros Hz H. destruct a, b; cbn in H; inversion H; subst; cbn; try reflexivity. apply Hz.
+Qed.
+
+Lemma vadd_time a b v : vadd a b = Ok v -> time_of v == time_of a + time_of b.
+Proof. apply arith_time. intros; rewrite inject_Z_plus; reflexivity. Qed.
+Lemma vsub_time a b v : vsub a b = Ok v -> time_of v == time_of a - time_of b.
+Proof. apply arith_time. intros. unfold Z.sub, Qminus. rewrite inject_Z_plus, inject_Z_opp. reflexivity. Qed.
+Lemma vmul_time a b v : vmul a b = Ok v -> time_of v == time_of a * time_of b.
+Proof. apply arith_time. intros; rewrite inject_Z_mult; reflexivity. Qed.
+Lemma vdivk_time a k v : vdivk a k = Ok v -> time_of v == time_of a / (Zpos k # 1).
+Proof.
+  destruct a; cbn; try discriminate. destruct (_ || _)%bool; intros H; inversion H; subst. reflexivity.
+Qed.
+Lemma vmax_time a b v : vmax a b = Ok v -> time_of v == Qmaxq (time_of a) (time_of b).
+Proof.
+  unfold vmax, Qmaxq, cmpq. destruct a, b; intros H; inversion H; subst; clear H; cbn [time_of];
+    match goal with |- context [Qleb ?x ?y] => destruct (Qleb x y) end; reflexivity.
+Qed.
+
+Lemma eval_qeval e x : forall v, eval e x = Ok v -> exists q, qeval (qenv_of e) x = Some q /\ q == time_of v.
+Proof.
+  induction x; cbn; intros v0 H.
+  - inversion H; subst. eexists; split; reflexivity.
+  - rewrite lookup_qenv. destruct (lookup e x); inversion H; subst. cbn. eexists; split; [reflexivity | apply Qred_correct].
+  - inv_ok. destruct (IHx1 _ H0) as (q1 & -> & E1), (IHx2 _ H1) as (q2 & -> & E2). cbn.
+    eexists; split; [reflexivity|]. rewrite (vadd_time _ _ _ H), E1, E2. reflexivity.
+  - inv_ok. destruct (IHx1 _ H0) as (q1 & -> & E1), (IHx2 _ H1) as (q2 & -> & E2). cbn.
+    eexists; split; [reflexivity|]. rewrite (vsub_time _ _ _ H), E1, E2. reflexivity.
+  - inv_ok. destruct (IHx1 _ H0) as (q1 & -> & E1), (IHx2 _ H1) as (q2 & -> & E2). cbn.
+    eexists; split; [reflexivity|]. rewrite (vmul_time _ _ _ H), E1, E2. reflexivity.
+  - inv_ok. destruct (IHx _ H0) as (q1 & -> & E1). cbn.
+    eexists; split; [reflexivity|]. rewrite (vdivk_time _ _ _ H), E1. reflexivity.
+  - inv_ok. destruct (IHx1 _ H0) as (q1 & -> & E1), (IHx2 _ H1) as (q2 & -> & E2). cbn.
+    eexists; split; [reflexivity|]. rewrite (vmax_time _ _ _ H). apply Qmaxq_comp; assumption.
+Qed.
+
+(* ------------------------------------------------------------------------------------------------------------ *)
+(* small facts about totals, sorting, integer casts *)
+Lemma total_app a b : total (a ++ b) == total a + total b.
+Proof. unfold total. rewrite map_app. apply qsum_app. Qed.
+
+Lemma total_concat ks : total (concat ks) == qsum (map total ks).
+Proof. induction ks; [reflexivity|]. cbn [concat map qsum]. rewrite total_app, IHks. reflexivity. Qed.
+
+Lemma total_wrap n kids : total (wrap_node n kids) == total kids * inject_Z n.
+Proof. destruct kids; cbn; [ring | unfold total; cbn; ring]. Qed.
+
+Lemma In_insert_comp x y l : In x (insert_comp y l) <-> x = y \/ In x l.
+Proof.
+  induction l as [|z t IH]; cbn; [intuition|].
+  destruct (fst z <=? fst y)%Z; cbn; [rewrite IH|]; intuition.
+Qed.
+
+Lemma In_sort_comps x l : In x (sort_comps l) <-> In x l.
+Proof.
+  induction l as [|y t IH]; cbn; [reflexivity|]. rewrite In_insert_comp, IH. intuition.
+Qed.
+
+Lemma Qfloor_int q z : q == inject_Z z -> Qfloor q = z.
+Proof. intros H. rewrite (Qfloor_comp _ _ H). apply Qfloor_Z. Qed.
+
+Lemma qint_some q z : qint q = Some z -> q == inject_Z z.
+Proof.
+  unfold qint, is_int, Qeqb. destruct (Qeq_bool _ _) eqn:E; intros H; inversion H; subst.
+  apply Qeq_bool_iff in E. symmetry. exact E.
+Qed.
+
+Lemma round_int x z : x == inject_Z z -> Qround_half_even x = z.
+Proof.
+  intros H. unfold Qround_half_even. rewrite (Qfloor_int _ _ H).
+  assert (E : (x - inject_Z z ?= 1 # 2) = Lt).
+  { apply Qlt_alt. rewrite H. setoid_replace (inject_Z z - inject_Z z) with 0 by ring. reflexivity. }
+  rewrite E. reflexivity.
+Qed.
+
+Lemma int_of_qint v n q z : int_of v = Ok n -> q == time_of v -> qint q = Some z -> n = z.
+Proof.
+  intros Hi Hq Hz. apply qint_some in Hz. rewrite Hq in Hz.
+  destruct v; cbn in Hi.
+  - inversion Hi; subst. cbn [time_of] in Hz. apply (proj1 (inject_Z_injective n z)). exact Hz.
+  - unfold cmpq in Hi. cbn in *. destruct (Qltb _ _); inversion Hi; subst. apply round_int; exact Hz.
+  - unfold cmpq in Hi. cbn in *. destruct (Qltb _ _); inversion Hi; subst. apply round_int; exact Hz.
+Qed.
+
+Lemma Forall2_join {A B C} (P : A -> Prop) (R1 : A -> B -> Prop) (R2 : A -> C -> Prop) (R3 : B -> C -> Prop) l a b :
+  (forall x y z, P x -> R1 x y -> R2 x z -> R3 y z) ->
+  Forall P l -> Forall2 R1 l a -> Forall2 R2 l b -> Forall2 R3 a b.
+Proof.
+  intros H HP H1. revert b. induction H1; intros b' H2; inversion H2; subst; constructor; inversion HP; subst; eauto.
+Qed.
+
+(* ------------------------------------------------------------------------------------------------------------ *)
+(* mapping: the mapped environment of the model is the mapped environment of the specification *)
+Lemma map_env_qenv e m e' vs :
+  map_env e m = Ok e' ->
+  oall (map (fun xe => let? v := qeval (qenv_of e) (snd xe) in Some (fst xe, Qred v)) m) = Some vs ->
+  qenv_of e' = vs ++ qenv_of e.
+Proof.
+  unfold map_env. intros H1 H2. inv_ok. unfold qenv_of at 1. rewrite map_app. f_equal.
+  apply rall_map_inv in H. apply oall_map_inv in H2.
+  revert vs H2. induction H as [|xe k l l' Hk Hl IH]; intros vs H2; inversion H2 as [|? d ? vs' Hd Hvs]; subst; cbn;
+    [reflexivity|].
+  f_equal; [|apply IH; assumption].
+  apply rbind_ok in Hk as (v & Hv & Hk). inversion Hk; subst; clear Hk.
+  destruct (eval_qeval _ _ _ Hv) as (q & Hq & E). rewrite Hq in Hd. cbn in Hd. inversion Hd; subst. cbn.
+  f_equal. apply Qred_complete. symmetry; exact E.
+Qed.
+
+(* ------------------------------------------------------------------------------------------------------------ *)
+(* tables *)
+Lemma qmax_list_comp l l' : Forall2 Qeq l l' -> forall a a', a == a' -> qmax_list a l == qmax_list a' l'.
+Proof. induction 1; intros a a' Ha; cbn; [exact Ha | apply IHForall2, Qmaxq_comp; assumption]. Qed.
+
+Lemma vmax_list_time l : forall a m, vmax_list a l = Ok m -> time_of m == qmax_list (time_of a) (map time_of l).
+Proof.
+  induction l as [|b t IH]; cbn; intros a m H.
+  - inversion H; subst; reflexivity.
+  - inv_ok. rewrite (IH _ _ H). apply qmax_list_comp.
+    + clear. induction t; constructor; [reflexivity | assumption].
+    + apply vmax_time; assumption.
+Qed.
+
+Definition vq (v : value) (q : Q) : Prop := q == time_of v.
+
+Lemma evals_rel e ts vs qs :
+  rall (map (eval e) ts) = Ok vs -> oall (map (qeval (qenv_of e)) ts) = Some qs -> Forall2 vq vs qs.
+Proof.
+  intros H1 H2. apply rall_map_inv in H1. apply oall_map_inv in H2.
+  revert qs H2. induction H1 as [|x v l l' Hv Hl IH]; intros qs H2; inversion H2; subst; constructor; [|apply IH; assumption].
+  destruct (eval_qeval _ _ _ Hv) as (q & Hq & E). unfold vq. congruence.
+Qed.
+
+Lemma last_rel vs qs dv dq : Forall2 vq vs qs -> vs <> [] -> vq (last vs dv) (last qs dq).
+Proof.
+  induction 1 as [|v q vs' qs' Hvq Hrest IH]; intros Hne; [congruence|].
+  destruct Hrest as [|v2 q2 vs2 qs2]; [exact Hvq|].
+  change (vq (last (v2 :: vs2) dv) (last (q2 :: qs2) dq)). apply IH. discriminate.
+Qed.
+
+Lemma tables_rel e chans vals qvals :
+  rall (map (fun ts => rall (map (eval e) ts)) chans) = Ok vals ->
+  oall (map (fun ts => oall (map (qeval (qenv_of e)) ts)) chans) = Some qvals ->
+  Forall2 (Forall2 vq) vals qvals.
+Proof.
+  intros H H0. apply rall_map_inv in H. apply oall_map_inv in H0.
+  revert qvals H0. induction H as [|ts vs l l' Hvs Hl IH]; intros qvals Hq; inversion Hq; subst; constructor.
+  - eapply evals_rel; eassumption.
+  - apply IH; assumption.
+Qed.
+
+Lemma table_wf_den r e chans w d :
+  table_wf r e chans = Ok w -> den (PTable r chans) (qenv_of e) = Some d ->
+  match w with None => d == 0 | Some c => c <> [] /\ Forall (fun x => snd x == d) c end.
+Proof.
+  unfold table_wf. cbn [den]. intros H1 H2. inv_ok.
+  rename x into vals, x0 into qvals.
+  destruct (forallb _ qvals) eqn:Hvalid; [|discriminate].
+  (* relate the evaluated tables *)
+  assert (Hrel : Forall2 (Forall2 vq) vals qvals) by (eapply tables_rel; eassumption).
+  set (ins := map (fun ts => match ts with v :: _ => if Qltb 0 (cmpq v) then VInt 0 :: ts else ts | [] => ts end) vals) in *.
+  assert (Hlast : Forall2 vq (map lastv ins) (map (fun ts => last ts 0) qvals)).
+  { subst ins. rewrite forallb_forall in Hvalid. clear H1 H2 H H0.
+    induction Hrel as [|vs qs l l' Hvq Hl IH]; cbn [map]; constructor.
+    - assert (Hne : qs <> []).
+      { specialize (Hvalid qs (or_introl eq_refl)). destruct qs; [discriminate | discriminate]. }
+      destruct Hvq as [|v q vs' qs' Hv Hr]; [congruence|].
+      destruct (Qltb 0 (cmpq v)).
+      + change (lastv (VInt 0 :: v :: vs')) with (last (v :: vs') (VInt 0)). apply last_rel; [constructor; assumption | discriminate].
+      + apply last_rel; [constructor; assumption | discriminate].
+    - apply IH. intros x Hx. apply Hvalid. right; exact Hx. }
+  destruct (map lastv ins) as [|a t] eqn:Ea; [discriminate|].
+  destruct (map (fun ts => last ts 0) qvals) as [|qa qt] eqn:Eq; [inversion Hlast|].
+  inversion H2; subst; clear H2. inversion Hlast; subst.
+  inv_ok. rename x into dur.
+  assert (Hd : time_of dur == qmax_list qa qt).
+  { rewrite (vmax_list_time _ _ _ H2). apply qmax_list_comp.
+    - clear - H7. induction H7; cbn; constructor; [symmetry; assumption | assumption].
+    - symmetry; assumption. }
+  destruct (Qeqb (cmpq dur) 0) eqn:Ez.
+  - inversion H1; subst. unfold Qeqb, cmpq in Ez. apply Qeq_bool_iff in Ez. rewrite <- Hd. exact Ez.
+  - destruct (forallb _ _); inversion H1; subst. split; [discriminate|]. constructor; [cbn; exact Hd | constructor].
+Qed.
+
+(* ------------------------------------------------------------------------------------------------------------ *)
+(* atomic templates: every channel component of the built waveform has the denoted duration *)
+Lemma Qabs_le0 b : Qabs b <= 0 -> b == 0.
+Proof. intros H. apply Qabs_Qle_condition in H. destruct H. apply Qle_antisym; assumption. Qed.
+
+Lemma isclose_zero a b : isclose a b = true -> a == 0 -> b == 0.
+Proof.
+  unfold isclose, Qleb. intros H Ha. apply Qle_bool_iff in H.
+  assert (E1 : Qabs (a - b) == Qabs b).
+  { setoid_replace (a - b) with (- b) by (rewrite Ha; ring). apply Qabs_opp. }
+  assert (E2 : Qabs a == 0) by (rewrite Ha; reflexivity).
+  pose proof (Qabs_nonneg b) as Hb.
+  rewrite E1 in H. apply Qabs_le0.
+  destruct (Qle_bool (Qabs a) (Qabs b)); cbv beta iota in H.
+  - generalize dependent (Qabs b). intros x Hx _ Hx'. lra.
+  - rewrite E2 in H. generalize dependent (Qabs b). intros x Hx _ Hx'. lra.
+Qed.
+
+Definition wf_ok (w : option comps) (d : Q) : Prop :=
+  match w with None => d == 0 | Some c => c <> [] /\ Forall (fun x => snd x == d) c end.
+
+Lemma wf_ok_cdur c d : wf_ok (Some c) d -> cdur c == d.
+Proof. intros [Hne Hall]. destruct c as [|[r q] t]; [congruence|]. inversion Hall; subst. assumption. Qed.
+
+Lemma wf_ok_eq w d d' : d == d' -> wf_ok w d -> wf_ok w d'.
+Proof.
+  intros E. destruct w; cbn; [|intros H; rewrite <- E; exact H].
+  intros [Hne Hall]. split; [exact Hne|]. eapply Forall_impl; [|exact Hall]. cbn. intros x Hx. rewrite Hx. exact E.
+Qed.
+
+Definition Wp (p : pt) : Prop :=
+  forall e w d, wf_of p e = Ok w -> den p (qenv_of e) = Some d -> wf_ok w d.
+
+Lemma all_eq_forall d l : all_eq d l = true -> Forall (fun x => d == x) l.
+Proof.
+  unfold all_eq. rewrite forallb_forall, Forall_forall. intros H x Hx. apply Qeq_bool_iff. apply H; assumption.
+Qed.
+
+Lemma somes_ok ws ds d :
+  Forall2 wf_ok ws ds -> Forall (fun x => d == x) ds -> Forall (fun c => wf_ok (Some c) d) (somes ws).
+Proof.
+  induction 1 as [|w0 dd ws' ds' Hw0 Hrest IH]; intros Hall; cbn; [constructor|].
+  inversion Hall; subst. destruct w0; [constructor|]; auto.
+  apply (wf_ok_eq (Some c) dd d); [symmetry; assumption | exact Hw0].
+Qed.
+
+Lemma parallel_ok l s d :
+  parallel l = Ok s -> l <> [] -> Forall (fun x => snd x == d) l -> wf_ok (Some s) d.
+Proof.
+  unfold parallel. destruct (forallb _ _); intros H; inversion H; subst; clear H. intros Hne Hall. split.
+  - destruct l as [|x t]; [congruence|]. intros C.
+    assert (In x (sort_comps (x :: t))) by (apply In_sort_comps; left; reflexivity). rewrite C in H. destruct H.
+  - rewrite Forall_forall in *. intros x Hx. apply Hall. apply In_sort_comps. exact Hx.
+Qed.
+
+Lemma concat_ok (l : list comps) d :
+  Forall (fun c => wf_ok (Some c) d) l -> Forall (fun x => snd x == d) (concat l).
+Proof.
+  induction 1 as [|c t [Hne Hc] _ IH]; cbn; [constructor|]. apply Forall_app. split; assumption.
+Qed.
+
+Lemma Wp_all : forall p, Wp p.
+Proof.
+  induction p using pt_ind'; unfold Wp; intros e w dd Hw Hd; cbn [wf_of] in Hw; try discriminate.
+  - (* atom *)
+    cbn [den] in Hd. apply obind_some in Hd as (q & Hq & Hd).
+    destruct (Qleb 0 q) eqn:Hpos; [|discriminate]. inversion Hd; subst; clear Hd.
+    destruct k; apply rbind_ok in Hw as (v & Hv & Hw); destruct (eval_qeval _ _ _ Hv) as (q' & Hq' & E);
+      rewrite Hq in Hq'; inversion Hq'; subst q'.
+    + unfold cmpq in Hw. destruct (Qltb 0 (time_of v)) eqn:Hlt; inversion Hw; subst; cbn.
+      * split; [discriminate|]. repeat constructor. cbn. symmetry; exact E.
+      * unfold Qltb in Hlt. apply negb_false_iff, Qle_bool_iff in Hlt. apply Qle_bool_iff in Hpos.
+        apply Qle_antisym; [rewrite E; exact Hlt | exact Hpos].
+    + inversion Hw; subst. cbn. split; [discriminate|]. repeat constructor. cbn. symmetry; exact E.
+  - (* table *) eapply table_wf_den; eassumption.
+  - (* map *)
+    cbn [den] in Hd. apply obind_some in Hd as (vs & Hvs & Hd). apply rbind_ok in Hw as (e' & He' & Hw).
+    eapply IHp; [eassumption|]. erewrite map_env_qenv; eassumption.
+  - (* multi *)
+    cbn [den] in Hd. apply obind_some in Hd as (ds & Hds & Hd). apply rbind_ok in Hw as (ws & Hws & Hw).
+    destruct ds as [|d0 dt]; [discriminate|]. destruct (all_eq d0 dt) eqn:Hall; [|discriminate].
+    assert (Hd0 : dd = d0).
+    { destruct d; [|inversion Hd; reflexivity]. apply obind_some in Hd as (dv & _ & Hd).
+      destruct (Qeqb dv d0); inversion Hd; reflexivity. }
+    subst d0. clear Hd.
+    apply rall_map_inv in Hws. apply oall_map_inv in Hds.
+    assert (Hj : Forall2 wf_ok ws (dd :: dt)).
+    { apply (Forall2_join Wp (fun c k => wf_of c e = Ok k) (fun c d => den c (qenv_of e) = Some d) wf_ok subs);
+        [|exact H|exact Hws|exact Hds].
+      intros c w0 d1 HW H1' H2'. exact (HW e w0 d1 H1' H2'). }
+    assert (Hall' : Forall (fun x => dd == x) (dd :: dt)) by (constructor; [reflexivity | apply all_eq_forall; exact Hall]).
+    pose proof (somes_ok _ _ _ Hj Hall') as Hs.
+    destruct (somes ws) as [|w1 rest] eqn:Es.
+    + inversion Hw; subst. cbn. inversion Hj as [|w0 ? ws' ? Hw0 Hrest]; subst.
+      destruct w0; [cbn in Es; discriminate | exact Hw0].
+    + apply rbind_ok in Hw as (wres & Hwres & Hw).
+      assert (Hres : wf_ok (Some wres) dd).
+      { destruct rest.
+        - inversion Hwres; subst. inversion Hs; subst. assumption.
+        - eapply parallel_ok; [exact Hwres | | apply concat_ok; exact Hs].
+          inversion Hs as [|? ? [Hne _] _]; subst. destruct w1; [congruence | cbn; discriminate]. }
+      destruct d.
+      * apply rbind_ok in Hw as (dv & _ & Hw). destruct (isclose _ _); inversion Hw; subst. exact Hres.
+      * inversion Hw; subst. exact Hres.
+  - (* arith *)
+    cbn [den] in Hd. apply obind_some in Hd as (dl & Hdl & Hd). apply obind_some in Hd as (dr & Hdr & Hd).
+    apply rbind_ok in Hw as (wl & Hwl & Hw). apply rbind_ok in Hw as (wr & Hwr & Hw).
+    pose proof (IHp1 _ _ _ Hwl Hdl) as Hl. pose proof (IHp2 _ _ _ Hwr Hdr) as Hr.
+    assert (Hcases : dd == dl /\ (dl == dr \/ dr == 0) \/ dd == dr /\ dl == 0).
+    { destruct (Qeqb dl dr) eqn:E1.
+      - inversion Hd; subst. left. split; [reflexivity | left; apply Qeq_bool_iff; exact E1].
+      - destruct (Qeqb dl 0) eqn:E2.
+        + inversion Hd; subst. right. split; [reflexivity | apply Qeq_bool_iff; exact E2].
+        + destruct (Qeqb dr 0) eqn:E3; inversion Hd; subst. left. split; [reflexivity | right; apply Qeq_bool_iff; exact E3]. }
+    destruct wr as [cr|].
+    + destruct wl as [cl|].
+      * destruct (isclose (cdur cl) (cdur cr)) eqn:Hc; inversion Hw; subst; clear Hw.
+        pose proof (wf_ok_cdur _ _ Hl) as El. pose proof (wf_ok_cdur _ _ Hr) as Er.
+        split; [discriminate|]. repeat constructor. cbn.
+        destruct Hcases as [[E _]|[E E0]]; [rewrite El, E; reflexivity|].
+        assert (Hz : cdur cl == 0) by (rewrite El; exact E0).
+        pose proof (isclose_zero _ _ Hc Hz) as Hz'. rewrite El, E, E0, <- Er, Hz'. reflexivity.
+      * inversion Hw; subst; clear Hw. pose proof (wf_ok_cdur _ _ Hr) as Er. cbn in Hl.
+        split; [discriminate|]. repeat constructor. cbn. rewrite Er.
+        destruct Hcases as [[E [E1|E1]]|[E E0]].
+        -- rewrite E, E1. reflexivity.
+        -- rewrite E, Hl, E1. reflexivity.
+        -- rewrite E. reflexivity.
+    + inversion Hw; subst; clear Hw. cbn in Hr.
+      destruct Hcases as [[E _]|[E E0]]; [apply (wf_ok_eq w dl dd); [symmetry; exact E | exact Hl]|].
+      apply (wf_ok_eq w dl dd); [rewrite E, E0, Hr; reflexivity | exact Hl].
+  - (* wrap *)
+    cbn [den] in Hd. apply rbind_ok in Hw as (w0 & Hw0 & Hw). pose proof (IHp _ _ _ Hw0 Hd) as H0.
+    inversion Hw; subst; clear Hw. destruct w0 as [c|]; [|exact H0].
+    split; [discriminate|]. repeat constructor. cbn. apply wf_ok_cdur; exact H0.
+Qed.
+
+(* ------------------------------------------------------------------------------------------------------------ *)
+(* the instantiated program lasts exactly as long as the template denotes *)
+Definition Rp (p : pt) : Prop :=
+  forall e kids d, cp p e = Ok kids -> den p (qenv_of e) = Some d -> total kids == d.
+
+Lemma cp_atomic p e kids d :
+  (do w <- wf_of p e; Ok (match w with Some c => [Leaf 1 (cdur c)] | None => [] end)) = Ok kids ->
+  den p (qenv_of e) = Some d -> total kids == d.
+Proof.
+  intros H Hd. apply rbind_ok in H as (w & Hw & H). inversion H; subst; clear H.
+  pose proof (Wp_all p e w d Hw Hd) as Hok. destruct w as [c|].
+  - unfold total. cbn. rewrite (wf_ok_cdur _ _ Hok). ring.
+  - cbn in Hok. unfold total. cbn. symmetry. exact Hok.
+Qed.
+
+Lemma qsum_rel (ks : list (list loop)) ds : Forall2 (fun k d => total k == d) ks ds -> qsum (map total ks) == qsum ds.
+Proof. induction 1; cbn; [reflexivity | rewrite H, IHForall2; reflexivity]. Qed.
+
+Lemma eval_int e x v n z : eval e x = Ok v -> int_of v = Ok n ->
+  (let? q := qeval (qenv_of e) x in qint q) = Some z -> n = z.
+Proof.
+  intros Hv Hn Hz. apply obind_some in Hz as (q & Hq & Hz).
+  destruct (eval_qeval _ _ _ Hv) as (q' & Hq' & E). rewrite Hq in Hq'. inversion Hq'; subst q'.
+  eapply int_of_qint; eassumption.
+Qed.
+
+Lemma Rp_all : forall p, Rp p.
+Proof.
+  induction p using pt_ind'; unfold Rp; intros e kids dd Hc Hd.
+  - eapply cp_atomic; eassumption.
+  - eapply cp_atomic; eassumption.
+  - (* seq *)
+    cbn [cp] in Hc. cbn [den] in Hd.
+    apply rbind_ok in Hc as (ks & Hks & Hc). inversion Hc; subst; clear Hc.
+    apply obind_some in Hd as (ds & Hds & Hd). inversion Hd; subst; clear Hd.
+    apply rall_map_inv in Hks. apply oall_map_inv in Hds.
+    rewrite total_concat. apply qsum_rel.
+    apply (Forall2_join Rp (fun c k => cp c e = Ok k) (fun c d => den c (qenv_of e) = Some d) (fun k d => total k == d) subs);
+      [|exact H|exact Hks|exact Hds].
+    intros c k d HR H1 H2. exact (HR e k d H1 H2).
+  - (* rep *)
+    cbn [cp] in Hc. cbn [den] in Hd.
+    apply rbind_ok in Hc as (vc & Hvc & Hc). apply rbind_ok in Hc as (n & Hn & Hc).
+    apply obind_some in Hd as (qc & Hqc & Hd). apply obind_some in Hd as (n' & Hn' & Hd).
+    assert (n = n') by (eapply eval_int; [exact Hvc | exact Hn | rewrite Hqc; exact Hn']). subst n'.
+    destruct (n <? 0)%Z eqn:E1; [discriminate|]. destruct (n =? 0)%Z eqn:E2.
+    + inversion Hd; subst. destruct (n <=? 0)%Z eqn:E3; [|lia]. inversion Hc; subst. reflexivity.
+    + destruct (n <=? 0)%Z eqn:E3; [lia|].
+      apply rbind_ok in Hc as (kids' & Hk & Hc). inversion Hc; subst; clear Hc.
+      apply obind_some in Hd as (db & Hdb & Hd). inversion Hd; subst; clear Hd.
+      rewrite total_wrap, (IHp _ _ _ Hk Hdb). ring.
+  - (* for *)
+    cbn [cp] in Hc. cbn [den] in Hd.
+    apply rbind_ok in Hc as (va & Hva & Hc). apply rbind_ok in Hc as (ia & Hia & Hc).
+    apply rbind_ok in Hc as (vb & Hvb & Hc). apply rbind_ok in Hc as (ib & Hib & Hc).
+    apply rbind_ok in Hc as (vs & Hvs & Hc). apply rbind_ok in Hc as (is & His & Hc).
+    apply obind_some in Hd as (qa & Hqa & Hd). apply obind_some in Hd as (ia' & Hia' & Hd).
+    apply obind_some in Hd as (qb & Hqb & Hd). apply obind_some in Hd as (ib' & Hib' & Hd).
+    apply obind_some in Hd as (qs & Hqs & Hd). apply obind_some in Hd as (is' & His' & Hd).
+    assert (ia = ia') by (eapply eval_int; [exact Hva | exact Hia | rewrite Hqa; exact Hia']).
+    assert (ib = ib') by (eapply eval_int; [exact Hvb | exact Hib | rewrite Hqb; exact Hib']).
+    assert (is = is') by (eapply eval_int; [exact Hvs | exact His | rewrite Hqs; exact His']).
+    subst ia' ib' is'.
+    destruct (is =? 0)%Z; [discriminate|].
+    apply rbind_ok in Hc as (ks & Hks & Hc). inversion Hc; subst; clear Hc.
+    apply obind_some in Hd as (ds & Hds & Hd). inversion Hd; subst; clear Hd.
+    apply rall_map_inv in Hks. apply oall_map_inv in Hds.
+    rewrite total_concat. apply qsum_rel.
+    apply (Forall2_join (fun _ => True) (fun v k => cp p ((i, VInt v) :: e) = Ok k)
+             (fun v d => den p ((i, Qred (inject_Z v)) :: qenv_of e) = Some d) (fun k d => total k == d) (zrange ia ib is));
+      [|apply Forall_forall; trivial|exact Hks|exact Hds].
+    intros v k d _ H1 H2. exact (IHp ((i, VInt v) :: e) k d H1 H2).
+  - (* map *)
+    cbn [cp] in Hc. cbn [den] in Hd.
+    apply rbind_ok in Hc as (e' & He' & Hc). apply obind_some in Hd as (vs & Hvs & Hd).
+    eapply IHp; [eassumption|]. erewrite map_env_qenv; eassumption.
+  - eapply cp_atomic; eassumption.
+  - eapply cp_atomic; eassumption.
+  - (* wrap *) cbn [cp] in Hc. cbn [den] in Hd. eapply IHp; eassumption.
+  - (* rev *)
+    cbn [cp] in Hc. cbn [den] in Hd. apply rbind_ok in Hc as (kids' & Hk & Hc). inversion Hc; subst; clear Hc.
+    rewrite total_wrap, (IHp _ _ _ Hk Hd). ring.
+Qed.
+
+(* ------------------------------------------------------------------------------------------------------------ *)
+(* create_program only builds well-formed trees: every repetition count >= 1, no childless inner node *)
+Definition Lp (p : pt) : Prop := forall e kids, cp p e = Ok kids -> Forall wfl kids.
+
+Lemma wfl_wrap n kids : (1 <= n)%Z -> Forall wfl kids -> Forall wfl (wrap_node n kids).
+Proof.
+  intros Hn Hk. destruct kids as [|k t]; cbn [wrap_node]; constructor; [|constructor].
+  apply wfl_node. repeat split; [exact Hn | discriminate | exact Hk].
+Qed.
+
+Lemma Forall_concat {A} (P : A -> Prop) (ls : list (list A)) : Forall (Forall P) ls -> Forall P (concat ls).
+Proof. induction 1; cbn; [constructor | apply Forall_app; split; assumption]. Qed.
+
+Lemma lp_atomic p e kids :
+  (do w <- wf_of p e; Ok (match w with Some c => [Leaf 1 (cdur c)] | None => [] end)) = Ok kids -> Forall wfl kids.
+Proof.
+  intros H. apply rbind_ok in H as (w & _ & H). inversion H; subst. destruct w; repeat constructor. cbn. lia.
+Qed.
+
+Lemma Forall2_right {A B} (P : A -> Prop) (Q : B -> Prop) (R : A -> B -> Prop) l l' :
+  (forall x y, P x -> R x y -> Q y) -> Forall P l -> Forall2 R l l' -> Forall Q l'.
+Proof. intros H HP H2. induction H2; constructor; inversion HP; subst; eauto. Qed.
+
+Lemma Lp_all : forall p, Lp p.
+Proof.
+  induction p using pt_ind'; unfold Lp; intros e kids Hc; cbn [cp] in Hc.
+  - eapply lp_atomic; eassumption.
+  - eapply lp_atomic; eassumption.
+  - apply rbind_ok in Hc as (ks & Hks & Hc). inversion Hc; subst; clear Hc. apply rall_map_inv in Hks.
+    apply Forall_concat. eapply (Forall2_right Lp); [|exact H|exact Hks]. intros c k HL Hk. exact (HL e k Hk).
+  - apply rbind_ok in Hc as (vc & _ & Hc). apply rbind_ok in Hc as (n & _ & Hc).
+    destruct (n <=? 0)%Z eqn:E; [inversion Hc; constructor|].
+    apply rbind_ok in Hc as (kids' & Hk & Hc). inversion Hc; subst. apply wfl_wrap; [lia | eapply IHp; eassumption].
+  - apply rbind_ok in Hc as (va & _ & Hc). apply rbind_ok in Hc as (ia & _ & Hc).
+    apply rbind_ok in Hc as (vb & _ & Hc). apply rbind_ok in Hc as (ib & _ & Hc).
+    apply rbind_ok in Hc as (vs & _ & Hc). apply rbind_ok in Hc as (is & _ & Hc).
+    destruct (is =? 0)%Z; [discriminate|].
+    apply rbind_ok in Hc as (ks & Hks & Hc). inversion Hc; subst; clear Hc. apply rall_map_inv in Hks.
+    apply Forall_concat. eapply (Forall2_right (fun _ => True)); [|apply Forall_forall; trivial|exact Hks].
+    intros v k _ Hk. exact (IHp _ k Hk).
+  - apply rbind_ok in Hc as (e' & _ & Hc). eapply IHp; eassumption.
+  - eapply lp_atomic; eassumption.
+  - eapply lp_atomic; eassumption.
+  - eapply IHp; eassumption.
+  - apply rbind_ok in Hc as (kids' & Hk & Hc). inversion Hc; subst. apply wfl_wrap; [lia | eapply IHp; eassumption].
+Qed.
+
+(* ------------------------------------------------------------------------------------------------------------ *)
+(* the three program-side views and the denoted duration *)
+Lemma qenv_decimalize e : qenv_of (decimalize e) = qenv_of e.
+Proof.
+  unfold qenv_of, decimalize. rewrite map_map. apply map_ext. intros [x v]. cbn. destruct v; reflexivity.
+Qed.
+
+Theorem program_views_agree p e d :
+  den p (qenv_of e) = Some d ->
+  forall o, create_program p e = Ok o ->
+  match o with
+  | None => d == 0
+  | Some prog => loop_duration prog == d
+                 /\ (exists q, wf_duration prog = Some q /\ q == d)
+                 /\ sum_pieces 1 prog == d
+  end.
+Proof.
+  intros Hd o Hc. unfold create_program in Hc. apply rbind_ok in Hc as (kids & Hk & Hc). inversion Hc; subst; clear Hc.
+  pose proof (Rp_all p e kids d Hk Hd) as Ht. pose proof (Lp_all p e kids Hk) as Hl.
+  destruct kids as [|k t].
+  - cbn in Ht. symmetry. exact Ht.
+  - assert (Hw : wfl (Node 1 (k :: t))) by (apply wfl_node; repeat split; [lia | discriminate | exact Hl]).
+    assert (Hld : loop_duration (Node 1 (k :: t)) == d).
+    { cbn [loop_duration]. change (qsum (map loop_duration (k :: t))) with (total (k :: t)). rewrite Ht. ring. }
+    split; [exact Hld|]. split.
+    + destruct (wf_duration_is_loop_duration _ Hw) as (q & Hq & E). exists q. split; [exact Hq | rewrite E; exact Hld].
+    + rewrite sum_pieces_is_duration. exact Hld.
+Qed.
+
+(* ------------------------------------------------------------------------------------------------------------ *)
+(* the symbolic duration (fragment without for-loop, table and atomic arithmetic) evaluates to the denoted duration *)
+Fixpoint simple (p : pt) : bool :=
+  match p with
+  | PAtom _ _ _ => true
+  | PTable _ _ | PFor _ _ _ _ _ | PArith _ _ => false
+  | PSeq subs => forallb simple subs
+  | PRep _ b | PMap _ b | PWrap b | PRev b => simple b
+  | PMulti _ subs => forallb simple subs
+  end.
+
+Lemma vsum_time l : forall v, vsum l = Ok v -> time_of v == qsum (map time_of l).
+Proof.
+  induction l as [|a t IH]; cbn; intros v H.
+  - inversion H; subst. reflexivity.
+  - apply rbind_ok in H as (s & Hs & H). rewrite (vadd_time _ _ _ H), (IH _ Hs). reflexivity.
+Qed.
+
+Definition Sp (p : pt) : Prop :=
+  simple p = true -> forall e v d, sym p e = Ok v -> den p (qenv_of e) = Some d -> time_of v == d.
+
+Lemma qsum_rel_v (vs : list value) ds : Forall2 (fun v d => time_of v == d) vs ds -> qsum (map time_of vs) == qsum ds.
+Proof. induction 1; cbn; [reflexivity | rewrite H, IHForall2; reflexivity]. Qed.
+
+Lemma Sp_all : forall p, Sp p.
+Proof.
+  induction p using pt_ind'; unfold Sp; intros Hs e v dd Hv Hd; cbn [simple] in Hs; try discriminate;
+    cbn [sym] in Hv; cbn [den] in Hd.
+  - apply obind_some in Hd as (q & Hq & Hd). destruct (Qleb 0 q); inversion Hd; subst.
+    destruct (eval_qeval _ _ _ Hv) as (q' & Hq' & E). rewrite Hq in Hq'. inversion Hq'; subst. symmetry; exact E.
+  - (* seq *)
+    apply rbind_ok in Hv as (vs & Hvs & Hv). apply obind_some in Hd as (ds & Hds & Hd). inversion Hd; subst; clear Hd.
+    apply rall_map_inv in Hvs. apply oall_map_inv in Hds.
+    rewrite (vsum_time _ _ Hv). apply qsum_rel_v.
+    assert (HP : Forall (fun c => simple c = true /\ Sp c) subs).
+    { rewrite forallb_forall in Hs. rewrite Forall_forall in *. intros c Hc. split; [apply Hs | apply H]; exact Hc. }
+    apply (Forall2_join (fun c => simple c = true /\ Sp c) (fun c k => sym c e = Ok k)
+             (fun c d => den c (qenv_of e) = Some d) (fun v d => time_of v == d) subs); [|exact HP|exact Hvs|exact Hds].
+    intros c k d [Hsc HS] H1 H2. exact (HS Hsc e k d H1 H2).
+  - (* rep *)
+    apply rbind_ok in Hv as (n & Hn & Hv). apply rbind_ok in Hv as (db & Hdb & Hv).
+    apply obind_some in Hd as (qc & Hqc & Hd). apply obind_some in Hd as (n' & Hn' & Hd).
+    destruct (eval_qeval _ _ _ Hn) as (q' & Hq' & E). rewrite Hqc in Hq'. inversion Hq'; subst q'.
+    apply qint_some in Hn'. rewrite (vmul_time _ _ _ Hv), <- E, Hn'.
+    destruct (n' <? 0)%Z; [discriminate|]. destruct (n' =? 0)%Z eqn:E0.
+    + inversion Hd; subst. apply Z.eqb_eq in E0. subst. ring.
+    + apply obind_some in Hd as (d0 & Hd0 & Hd). inversion Hd; subst. rewrite (IHp Hs _ _ _ Hdb Hd0). reflexivity.
+  - (* map *)
+    apply rbind_ok in Hv as (e' & He' & Hv). apply obind_some in Hd as (vs & Hvs & Hd).
+    eapply IHp; [exact Hs | eassumption|]. erewrite map_env_qenv; eassumption.
+  - (* multi *)
+    apply obind_some in Hd as (ds & Hds & Hd). destruct ds as [|d0 dt]; [discriminate|].
+    destruct (all_eq d0 dt); [|discriminate]. apply oall_map_inv in Hds.
+    destruct d as [x|].
+    + apply obind_some in Hd as (dv & Hdv & Hd). destruct (Qeqb dv d0) eqn:Eq; inversion Hd; subst.
+      destruct (eval_qeval _ _ _ Hv) as (q' & Hq' & E). rewrite Hdv in Hq'. inversion Hq'; subst.
+      apply Qeq_bool_iff in Eq. rewrite <- E. exact Eq.
+    + inversion Hd; subst. destruct subs as [|c t]; [discriminate|].
+      inversion Hds as [|? ? ? ? Hdc Hdt]; subst. inversion H as [|? ? HSc HSt]; subst. cbn in Hs. apply andb_prop in Hs as [Hs1 _].
+      exact (HSc Hs1 e v dd Hv Hdc).
+  - eapply IHp; eassumption.
+  - eapply IHp; eassumption.
+Qed.
+
+(* ------------------------------------------------------------------------------------------------------------ *)
+(* combination, witnesses *)
+Definition guard_C04 (p : pt) (e : env) : bool := match den p (qenv_of e) with Some _ => true | None => false end.
+
+Theorem agree_partial p e d v o :
+  simple p = true -> den p (qenv_of e) = Some d -> create_program p e = Ok o -> sym p (decimalize e) = Ok v ->
+  time_of v == d /\
+  match o with
+  | None => d == 0
+  | Some prog => loop_duration prog == d /\ (exists q, wf_duration prog = Some q /\ q == d) /\ sum_pieces 1 prog == d
+  end.
+Proof.
+  intros Hs Hd Hc Hv. split.
+  - eapply Sp_all; [exact Hs | exact Hv | rewrite qenv_decimalize; exact Hd].
+  - eapply program_views_agree; eassumption.
+Qed.
+
+(* witnesses of the four input classes on which the unchanged code's numbers disagree *)
+Definition w_negcount : pt * env :=
+  (PRep (EVar 1%N) (PAtom KConst 0 (EVar 0%N)), [(0%N, VTime (1 # 10)); (1%N, VInt (-2))]).
+Definition w_negdur : pt * env :=
+  (PSeq [PAtom KConst 0 (EVar 0%N); PAtom KConst 0 (ELit (VInt 3))], [(0%N, VInt (-2))]).
+Definition w_nearint : pt * env :=
+  (PRep (EVar 1%N) (PAtom KConst 0 (ELit (VInt 1))), [(1%N, VTime (20000001 # 10000000))]).
+Definition w_parallel : pt * env :=
+  (PMulti None [PAtom KConst 0 (ELit (VInt 0)); PAtom KConst 1 (ELit (VInt 5))], []).
+
+Definition disagrees (w : pt * env) : Prop :=
+  exists kids v, cp (fst w) (snd w) = Ok kids /\ sym (fst w) (decimalize (snd w)) = Ok v /\ ~ time_of v == total kids.
+
+Lemma refuted_negcount : disagrees w_negcount /\ guard_C04 (fst w_negcount) (snd w_negcount) = false.
+Proof. split; [|reflexivity]. do 2 eexists. split; [vm_compute; reflexivity|]. split; [vm_compute; reflexivity|]. vm_compute. discriminate. Qed.
+Lemma refuted_negdur : disagrees w_negdur /\ guard_C04 (fst w_negdur) (snd w_negdur) = false.
+Proof. split; [|reflexivity]. do 2 eexists. split; [vm_compute; reflexivity|]. split; [vm_compute; reflexivity|]. vm_compute. discriminate. Qed.
+Lemma refuted_nearint : disagrees w_nearint /\ guard_C04 (fst w_nearint) (snd w_nearint) = false.
+Proof. split; [|reflexivity]. do 2 eexists. split; [vm_compute; reflexivity|]. split; [vm_compute; reflexivity|]. vm_compute. discriminate. Qed.
+Lemma refuted_parallel : disagrees w_parallel /\ guard_C04 (fst w_parallel) (snd w_parallel) = false.
+Proof. split; [|reflexivity]. do 2 eexists. split; [vm_compute; reflexivity|]. split; [vm_compute; reflexivity|]. vm_compute. discriminate. Qed.
+
+(* a non-trivial input that satisfies every hypothesis of the guarded theorems *)
+Definition ex_tpl : pt :=
+  PSeq [PRep (EVar 2%N) (PMap [(5%N, EMul (EVar 0%N) (ELit (VInt 3)))] (PAtom KConst 0 (EVar 5%N)));
+        PRev (PMulti (Some (EVar 1%N)) [PAtom KFunc 1 (EVar 1%N); PWrap (PAtom KConst 0 (EVar 1%N))])].
+Definition ex_env : env := [(0%N, VTime (1 # 10)); (1%N, VFloat (3602879701896397 # 36028797018963968) (1 # 10)); (2%N, VInt 1000000)].
+Lemma example_guard : simple ex_tpl = true /\ (exists d, den ex_tpl (qenv_of ex_env) = Some d /\ d == 3000001 # 10)
+  /\ (exists prog, create_program ex_tpl ex_env = Ok (Some prog)) /\ (exists v, sym ex_tpl (decimalize ex_env) = Ok v).
+Proof.
+  split; [vm_compute; reflexivity|]. split; [eexists; split; vm_compute; reflexivity|].
+  split; eexists; vm_compute; reflexivity.
+Qed.
+
+(* with a for-loop (program side only needs the guard) *)
+Definition ex_for : pt := PFor 3%N (ELit (VInt 5)) (EVar 1%N) (ELit (VInt (-2))) (PRep (EVar 3%N) (PAtom KConst 0 (EVar 0%N))).
+Definition ex_for_env : env := [(0%N, VTime (1 # 4)); (1%N, VInt 0)].
+Lemma example_for : (exists d, den ex_for (qenv_of ex_for_env) = Some d /\ d == 9 # 4)
+  /\ exists prog, create_program ex_for ex_for_env = Ok (Some prog).
+Proof. split; [eexists; split; vm_compute; reflexivity | eexists; vm_compute; reflexivity]. Qed.
